@@ -139,6 +139,8 @@ func runC10(c *Ctx, tier string) {
 	// P2
 	c.Rule("C10-P2", "partials are consumed element by element independently: in every function of the aggregate package that iterates container elements, no zed.Type derived from one element is carried (loop-header phi) into the decoding of the next")
 	runElementIndependence(c, "C10-P2", "runtime/sam/expr/agg")
+	runJoinSidesSwapTogether(c, "C10-J1")
+	runJoinDirDeclared(c, "C10-J2")
 }
 
 func recvType(cc *ssa.CallCommon) types.Type {
